@@ -16,7 +16,7 @@ from __future__ import annotations
 
 from .. import tlc
 from ..core import Ctx, pmap
-from ..routing_build import gen_case, run_case, sweep_cases, txt
+from ..routing_build import edge_cases, gen_case, run_case, sweep_cases, txt
 
 LEVEL = "model_checking"
 AREA = "routing"
@@ -90,11 +90,13 @@ def run(ctx: Ctx):
                 "bind(subdomain=None / '' / other / the default) and the subdomain bind_to_environ derives), Submount / Subdomain factories, "
                 "subdomain or host matching; binding with script root / subdomain / scheme; endpoint, values in the converters' domains, extra "
                 "query values, force_external); executed as build -> deliver -> match (same adapter and bind_to_environ) -> Request.args -> rebuild, "
-                "then match / build / rematch on mutated neighbours of the delivered path; plus TLC-exported model cases and a code point sweep; "
+                "then match / build / rematch on mutated neighbours of the delivered path; plus TLC-exported model cases, a code point sweep and a fixed "
+                "enumeration of boundary values (texts ending / starting with LF, CR, space, '.', '%', '%0A', '+', '?', '#'; numbers 0, -0, min / max, "
+                "fixed_digits padding, huge ints, 16-17 digit floats) for every converter kind x position of the variable in the rule; "
                 "non-trivial = distinct built URL that needs percent-coding, carries a query, is external, or comes from a map with defaults")
     ctx.assumptions += [
         "Deliver: relative URLs are requested from the adapter's own host; the server strips the script root, percent-decodes the path as UTF-8 and passes the query apart",
-        "floats travel as repr() text; only floats with <= 15 significant digits in positional notation are judged",
+        "floats travel as repr() text: call values in positional notation with up to 17 significant digits are judged; float texts in matched paths only up to 15 digits",
         "rules with defaults follow the documented patterns: a short rule carrying the default of the long rule's last variable, defaults outside the URL, or a "
         "chain of rules of one endpoint whose default sets are nested (2 / 1 / 0 defaults); sibling rules with equally many defaults on different arguments are not generated",
         "methods, alias, websocket, redirect_to and build_only are not part of the check",
@@ -102,7 +104,7 @@ def run(ctx: Ctx):
         "several variables in one segment are judged where no value (as spelled in the path) contains a literal character of the segment and adjacent variables are separated by a literal",
         "float min / max are judged for values with at most 6 integer and 3 fraction digits; under sort_parameters the extras are compared as a multiset (exact order is drift)",
     ]
-    for cfg in (("MCBuild_q", "MCBuild_qd", "MCBuild_qg", "MCBuild_qp", "MCBuild_qs") if q else ("MCBuild_q", "MCBuild_qd", "MCBuild_qg", "MCBuild_qp", "MCBuild_qs", "MCBuild_t7", "MCBuild_t1", "MCBuild_t2", "MCBuild_t3", "MCBuild_t4", "MCBuild_t5", "MCBuild_t6")):
+    for cfg in (("MCBuild_q", "MCBuild_qd", "MCBuild_qg", "MCBuild_qp", "MCBuild_qs", "MCBuild_qe") if q else ("MCBuild_q", "MCBuild_qd", "MCBuild_qg", "MCBuild_qp", "MCBuild_qs", "MCBuild_qe", "MCBuild_t7", "MCBuild_t1", "MCBuild_t2", "MCBuild_t3", "MCBuild_t4", "MCBuild_t5", "MCBuild_t6")):
         ctx.model_check(AREA, "MCBuild", cfg, timeout=3000)
     ctx.exhaustive = True
     for cfg, name in (("MCBuild_orig_path", "pre_fix_path_model_violates"), ("MCBuild_orig_any", "pre_fix_any_model_violates"),
@@ -123,6 +125,9 @@ def run(ctx: Ctx):
             r["via"] = "plain"
         c["npaths"], c["pseed"] = (1 if q else 3), ctx.seed
         jobs.append(("model", c))
+    edges = edge_cases()    # deterministic boundary values per converter kind x position: part of every run, no random draw
+    ctx.notes["edge_cases"] = len(edges)
+    jobs += [("edge", c) for c in edges]
     jobs += [("sweep", c) for c in sweep_cases(BOUNDARY_POINTS if q else sorted(set(BOUNDARY_POINTS) | set(range(0, 0x800, 1)) | set(range(0x800, 0x11000, 97))))]
     n = 1800 if q else 30000
     jobs += [("rand", ctx.seed * 1000003 + i) for i in range(n)]
